@@ -356,8 +356,12 @@ def gen_case(rng, rm, malformed=False):
         elif r < 0.65:
             lines.append(['launch7'])                           # unmarked, 1 core
         lines += gen_lines(rng, names, [phys] * n)
-        if rng.random() < 0.1:
+        r = rng.random()
+        if r < 0.1:
             lines.append(['login9'])
+        elif r < 0.25:
+            # a marked pseudo node listed with as many slots as a compute node
+            lines += [[rng.choice(['batch5', 'login-x', 'sierra-batch'])]] * phys
         if malformed and rng.random() < 0.3:
             lines += [[names[0]]]                               # non-uniform
         env['nodefile'] = {'lines': lines}
@@ -467,7 +471,7 @@ class C18(Prop):
     props_files = ['Props/C18.v']
     extra_targets = ['NodeList/Oracle.vo']
     model_targets = ['NodeList/Oracle.vo']
-    translators = []
+    translators = ['rminfo']
     header = 'From RP Require Import NodeList.Model NodeList.Oracle.'
     clauses = ['one_entry_per_node', 'indices_unique', 'sizes_configured', 'agents_excluded', 'not_empty',
                'not_longer_than_requested', 'same_for_all_components', 'hostlist_expansion']
@@ -482,6 +486,8 @@ class C18(Prop):
             'constructor succeeded on an allocation of >= 2 nodes and truncated the list, reserved agent/service '
             'nodes, blocked resources, probed backups or merged repeated lines')
     trusted = [
+        'translator translators/rminfo.py (ast of agent/resource_manager/base.py -> Gen/RMInfoTables.v: RMInfo._schema '
+        'keys, RMInfo._defaults, the get_manager factory table; fail closed)',
         'correspondence harness harness/c18.py + harness/c18_impl.py: real RM classes constructed with the real '
         '__init__ (registry client replaced by an in-memory store whose values cross ru.to_msgpack/from_msgpack, '
         'rc.process.Process replaced for the ssh probe, ru.sh_callout replaced for qstat, multiprocessing.cpu_count '
@@ -571,17 +577,22 @@ class C18(Prop):
         if case.get('kind') == 'hostlist':
             return '%s:ru.get_hostlist:%s' % (clause, 'unpadded-range-across-digit-boundary'
                                               if mixed_width(case['groups']) else 'same-width-range')
-        cond = []
-        if case.get('prior'):
-            cond.append('after-earlier-init-in-process')
+        # clause [+ the RM for the clause that depends on the RM's own size
+        # detection] [+ whether an earlier initialisation preceded]
+        sig = [clause]
         if clause == 'sizes_configured':
-            c = case['cfg']
-            smt = c.get('smt_env') if c.get('smt_env') is not None else (c.get('smt_arch') or 1)
-            cond.append('smt>1' if smt > 1 else 'smt<=1')
-        return ':'.join([clause, case['rm']] + cond)
+            sig.append(case['rm'])
+        elif case.get('prior'):
+            sig.append('after-earlier-init-in-process')
+        return ':'.join(sig)
+
+    shrink_budget = 70          # shrink rounds per run, over all violations
 
     def shrink(self, case):
         if case.get('kind') == 'hostlist':
+            return
+        self.shrink_budget -= 1
+        if self.shrink_budget < 0:
             return
         c = case['cfg']
 
@@ -598,9 +609,21 @@ class C18(Prop):
                 yield dict(case, prior=dict(p, cfg=dict(p['cfg'], blocked_cores=[], blocked_gpus=[])))
             if p['rm'] != case['rm']:
                 yield dict(case, prior={k: v for k, v in case.items() if k != 'prior'})
+        e0 = case['env']
+        nf0 = e0.get('nodefile')
+        if nf0 and nf0.get('lines') and len(nf0['lines']) > 3:
+            names0 = []
+            for ln in nf0['lines']:
+                if ln[0] not in names0:
+                    names0.append(ln[0])
+            if len(names0) > 2:
+                keep = set(names0[:(len(names0) + 1) // 2])
+                yield dict(case, env=dict(e0, nodefile={'lines': [ln for ln in nf0['lines'] if ln[0] in keep]}))
         if c.get('services'):
             yield with_cfg(services=False)
         ag = c.get('agents') or []
+        if len(ag) > 1:
+            yield with_cfg(agents=ag[:1])
         for i in range(len(ag)):
             yield with_cfg(agents=ag[:i] + ag[i + 1:])
         for k in ('blocked_cores', 'blocked_gpus'):
